@@ -81,24 +81,50 @@ def locate_failure(make_out):
     return names
 
 
+def pins_file(mod):
+    """Props/<id>Pins.v (source pins of the hand-modelled functions, tools/mkpins.py) when the property has one."""
+    f = mod.PROPS[:-2] + "Pins.v"
+    return f if os.path.exists(os.path.join(model.COQ, f)) else None
+
+
+def all_theorems(mod):
+    pf = pins_file(mod)
+    return model.theorems_of(mod.PROPS) + (model.theorems_of(pf) if pf else [])
+
+
+def changed_pins(mod):
+    """Names of the pinned functions whose current fingerprint differs from the one the model was written against."""
+    pf = pins_file(mod)
+    if not pf:
+        return []
+    from .gens import g05_pins
+    want = dict(re.findall(r'\("([^"]+)"%string, "([0-9a-fA-FMISNG]+)"%string\)', open(os.path.join(model.COQ, pf)).read()))
+    return [s for s, h in g05_pins.current_pins(mod.ID) if want.get(s) != h]
+
+
 def coq_props(mod):
-    """Build the dependencies of Props/<id>.v, then compile Props/<id>.v itself capturing Print Assumptions."""
-    props = mod.PROPS  # e.g. "Props/C15.v"
+    """Build the dependencies of Props/<id>.v (and Props/<id>Pins.v), then compile them capturing Print Assumptions."""
     t0 = time.time()
-    ok, out, _ = model.make([props + "o"])
+    files = [mod.PROPS] + ([pins_file(mod)] if pins_file(mod) else [])
+    ok, out, _ = model.make([f + "o" for f in files])
     info = {"ok": ok, "log": out[-6000:], "failed_at": locate_failure(out) if not ok else [], "assumptions": {}}
     if ok:
-        with model.Lock():
-            p = subprocess.run(["timeout", "900", "coqc", "-R", ".", "PV", props], cwd=model.COQ, capture_output=True, text=True)
-        if p.returncode != 0:
-            info.update(ok=False, log=(p.stdout + p.stderr)[-6000:], failed_at=locate_failure(p.stdout + p.stderr))
-        else:
+        for props in files:
+            with model.Lock():
+                p = subprocess.run(["timeout", "900", "coqc", "-R", ".", "PV", props], cwd=model.COQ, capture_output=True, text=True)
+            if p.returncode != 0:
+                info.update(ok=False, log=(p.stdout + p.stderr)[-6000:], failed_at=locate_failure(p.stdout + p.stderr))
+                break
             # output of `Print Assumptions t.` follows in order of the theorems
             thms = model.theorems_of(props)
             chunks = re.split(r"(?=Closed under the global context|Axioms:)", p.stdout)
             chunks = [c.strip() for c in chunks if c.strip()]
             for t, c in zip(thms, chunks):
                 info["assumptions"][t] = re.sub(r"\s+", " ", c)[:600]
+    if not ok or not info["ok"]:
+        ch = changed_pins(mod)
+        if ch:
+            info["failed_at"] = list(info["failed_at"]) + ["source pin: hand-modelled function changed in /repo: " + ", ".join(ch)]
     info["seconds"] = time.time() - t0
     return info
 
@@ -106,9 +132,10 @@ def coq_props(mod):
 def coqchk(mod):
     """Thorough tier: re-check the compiled Props library and everything it depends on with the independent checker; list the axioms it reports."""
     lib = "PV." + mod.PROPS[:-2].replace("/", ".")
+    libs = [lib] + ([lib + "Pins"] if pins_file(mod) else [])
     t0 = time.time()
     try:
-        p = subprocess.run(["timeout", "1500", "coqchk", "-silent", "-o", "-R", ".", "PV", lib], cwd=model.COQ, capture_output=True, text=True)
+        p = subprocess.run(["timeout", "1500", "coqchk", "-silent", "-o", "-R", ".", "PV"] + libs, cwd=model.COQ, capture_output=True, text=True)
         out = p.stdout + p.stderr
         ok = p.returncode == 0
     except Exception as e:  # noqa
@@ -221,7 +248,7 @@ def main(argv=None):
         bad = model.forbidden_scan()
         # 3. prove
         proof = coq_props(mod)
-        theorems = model.theorems_of(mod.PROPS)
+        theorems = all_theorems(mod)
         chk = coqchk(mod) if (tier == "thorough" and proof["ok"]) else None
         # model driver
         driver_ok, drv_out = model.build_driver(mod.ID)
